@@ -76,6 +76,7 @@ class Lemma(object):
         self.uses = list(d.get('uses', []))     # hints used inside the proof (evaluated in the lemma's own env)
         self.uses_step = list(d.get('uses_step', []))
         self.axiom = d.get('axiom')             # text: why this is assumed (mathematical bridge) -> listed as assumption
+        self.fuel = d.get('fuel', 1)            # unfolding depth of recursive spec functions in this lemma's VCs
         self.doc = d.get('doc', '')
 
 
@@ -1882,4 +1883,6 @@ def lemma_vcs(lib, lem):
     hyps = use_hints(st.pc + pre + [n >= 1, ih], lem.uses_step or lem.uses, env, 'step')
     for k, q in enumerate(post):
         vcs.append(VC('%s::step.post%d' % (key, k), hyps, q, note=lem.ensures[k]))
+    for vc in vcs:
+        vc.fuel = lem.fuel
     return vcs
